@@ -86,6 +86,9 @@ func bbExpected(a *variable.Value, t reflect.Type) reflect.Value {
 	return reflect.ValueOf(*a.String).Convert(t)
 }
 
+type bbDone chan error
+type bbRecvDone <-chan error
+
 type bbResult struct {
 	name  string
 	types []reflect.Type
@@ -126,7 +129,12 @@ func TestBoundedBridge(t *testing.T) {
 		{"error-value", []reflect.Type{bbErrorType, universe[0]}, false}}
 	cmdResults := []bbResult{{"none", nil, false}, {"error-nil", []reflect.Type{bbErrorType}, false}, {"error-set", []reflect.Type{bbErrorType}, true},
 		{"chan", []reflect.Type{reflect.TypeOf((chan error)(nil))}, true}, {"recv-chan", []reflect.Type{reflect.TypeOf((<-chan error)(nil))}, false},
-		{"int", []reflect.Type{universe[0]}, false}, {"two", []reflect.Type{bbErrorType, bbErrorType}, false}}
+		{"int", []reflect.Type{universe[0]}, false}, {"two", []reflect.Type{bbErrorType, bbErrorType}, false},
+		// channels an error cannot be received from, or whose elements are not the error interface: not bridgeable;
+		// named channel types of errors: bridgeable
+		{"send-chan", []reflect.Type{reflect.TypeOf((chan<- error)(nil))}, false}, {"named-chan", []reflect.Type{reflect.TypeOf(bbDone(nil))}, true},
+		{"concrete-error-chan", []reflect.Type{reflect.TypeOf((chan bbErr)(nil))}, false}, {"named-recv-chan", []reflect.Type{reflect.TypeOf(bbRecvDone(nil))}, false},
+		{"concrete-error-recv-chan", []reflect.Type{reflect.TypeOf((<-chan bbErr)(nil))}, true}, {"int-chan", []reflect.Type{reflect.TypeOf((chan int)(nil))}, false}}
 	var argLists [][]string
 	var recA func(cur []string)
 	recA = func(cur []string) {
@@ -209,7 +217,8 @@ func TestBoundedBridge(t *testing.T) {
 						case 0:
 							resOK = true
 						case 1:
-							resOK = res.types[0].ConvertibleTo(bbErrorType) || (res.types[0].Kind() == reflect.Chan && res.types[0].Elem().ConvertibleTo(bbErrorType))
+							// an error, or a channel from which an error can be received (taken from the property, not from the gate's code)
+							resOK = res.types[0].ConvertibleTo(bbErrorType) || res.types[0].ConvertibleTo(reflect.TypeOf((<-chan error)(nil)))
 						}
 					}
 					var got []reflect.Value
@@ -225,13 +234,18 @@ func TestBoundedBridge(t *testing.T) {
 							case rt == reflect.TypeOf(bbErr{}):
 								out = append(out, reflect.ValueOf(bbErr{"boom"}))
 							case rt.Kind() == reflect.Chan:
-								ch := make(chan error, 1)
-								if res.err {
-									ch <- errors.New("boom")
-								} else {
-									ch <- nil
+								ch := reflect.MakeChan(reflect.ChanOf(reflect.BothDir, rt.Elem()), 1)
+								switch {
+								case !res.err:
+									ch.Send(reflect.Zero(rt.Elem()))
+								case rt.Elem() == bbErrorType:
+									ch.Send(reflect.ValueOf(errors.New("boom")).Convert(rt.Elem()))
+								case rt.Elem() == reflect.TypeOf(bbErr{}):
+									ch.Send(reflect.ValueOf(bbErr{"boom"}))
+								default:
+									ch.Send(reflect.Zero(rt.Elem()))
 								}
-								out = append(out, reflect.ValueOf(ch).Convert(rt))
+								out = append(out, ch.Convert(rt))
 							default:
 								out = append(out, bbCanned(rt))
 							}
